@@ -116,7 +116,93 @@ def replay(model, obligation):
             r = repr(e)
         bad = b != exp or r != (v, len(exp))
         return {'reproduced': bad, 'detail': 'uvint_pack(%d) = %s (VIntCoding: %s); unpack -> %r' % (v, b.hex(), exp.hex(), r)}
-    return {'reproduced': False, 'detail': 'no native replay for %s' % hname}
+    return _battery(model, hname, pv)
+
+
+def _battery(model, hname, pv):
+    """directed battery for the scalar codecs whose counter-models are structural (a byte string, a float, a flag): the model value when there is one, plus
+    boundary values, through the real serialize / deserialize against the spec encoders"""
+    import math
+    import uuid
+    from cassandra import cqltypes, marshal
+    fails = []
+
+    def hexbytes(name):
+        v = model.get(name)
+        return bytes.fromhex(v['bytes_hex']) if isinstance(v, dict) and 'bytes_hex' in v else None
+    if hname == 'BooleanType':
+        for v in (True, False):
+            b = cqltypes.BooleanType.serialize(v, pv)
+            if b != (b'\x01' if v else b'\x00') or cqltypes.BooleanType.deserialize(b, pv) is not v:
+                fails.append('BooleanType %r -> %s -> %r' % (v, b.hex(), cqltypes.BooleanType.deserialize(b, pv)))
+    elif hname in ('FloatType', 'DoubleType'):
+        t = getattr(cqltypes, hname)
+        for v in (0.0, -0.0, 1.5, -2.25, float('inf'), float('-inf'), 1e-40 if hname == 'DoubleType' else 1.0e-38, 3.0e38, 1.7976931348623157e308 if hname == 'DoubleType' else 65504.0):
+            b = t.serialize(v, pv)
+            want = struct.pack('>d' if hname == 'DoubleType' else '>f', v)
+            back = t.deserialize(b, pv)
+            if b != want or back != struct.unpack('>d' if hname == 'DoubleType' else '>f', want)[0] or math.copysign(1, back) != math.copysign(1, v):
+                fails.append('%s %r -> %s (IEEE: %s) -> %r' % (hname, v, b.hex(), want.hex(), back))
+        nan = t.deserialize(t.serialize(float('nan'), pv), pv)
+        if nan == nan:
+            fails.append('%s NaN came back as %r' % (hname, nan))
+    elif hname in ('UTF8Type', 'AsciiType'):
+        t = getattr(cqltypes, hname)
+        for v in ['', 'a', "it's", 'x' * 300] + (['\u00e9\u4e2d\U0001f600', '\x00'] if hname == 'UTF8Type' else ['~!@']):
+            b = t.serialize(v, pv)
+            if b != v.encode('utf-8' if hname == 'UTF8Type' else 'ascii') or t.deserialize(b, pv) != v:
+                fails.append('%s %r -> %s -> %r' % (hname, v, b.hex(), t.deserialize(b, pv)))
+    elif hname == 'BytesType':
+        for v in [hexbytes('value') or b'', b'', b'\x00', bytes(range(256))]:
+            b = cqltypes.BytesType.serialize(v, pv)
+            if bytes(b) != v or bytes(cqltypes.BytesType.deserialize(b, pv)) != v:
+                fails.append('BytesType %r -> %r' % (v, b))
+    elif hname == 'null-and-empty':
+        for t, v in ((cqltypes.Int32Type, 5), (cqltypes.UTF8Type, 'x'), (cqltypes.BytesType, b'y'), (cqltypes.BooleanType, True)):
+            if t.to_binary(None, pv) != b'' or t.from_binary(None, pv) is not None:
+                fails.append('%s: null -> %r, wire null -> %r' % (t.__name__, t.to_binary(None, pv), t.from_binary(None, pv)))
+            if t.from_binary(t.to_binary(v, pv), pv) != v:
+                fails.append('%s: %r does not survive to_binary / from_binary' % (t.__name__, v))
+            e = t.from_binary(b'', pv)
+            if t.empty_binary_ok:
+                if e != t.deserialize(b'', pv):
+                    fails.append('%s: the empty value came back as %r' % (t.__name__, e))
+            elif e is not None and not (t.support_empty_values and e is cqltypes.EMPTY):
+                fails.append('%s: empty bytes came back as %r' % (t.__name__, e))
+    elif hname in ('UUIDType', 'TimeUUIDType'):
+        t = getattr(cqltypes, hname)
+        for u in (uuid.UUID(int=0), uuid.UUID(int=(1 << 128) - 1), uuid.UUID('6ba7b810-9dad-11d1-80b4-00c04fd430c8'), uuid.UUID(int=0x0123456789abcdef0123456789abcdef)):
+            b = t.serialize(u, pv)
+            if b != u.bytes or t.deserialize(b, pv) != u:
+                fails.append('%s %s -> %s -> %r' % (hname, u, b.hex(), t.deserialize(b, pv)))
+    elif hname == 'zigzag':
+        for n in [int(model.get('n', 0) or 0), 0, -1, 1, (1 << 63) - 1, -(1 << 63), 1 << 31, -(1 << 31) - 1]:
+            z = marshal.encode_zig_zag(n)
+            if z != cser.zigzag64(n) or marshal.decode_zig_zag(z) != n:
+                fails.append('zig-zag of %d is %d (Cassandra: %d), decoded %d' % (n, z, cser.zigzag64(n), marshal.decode_zig_zag(z)))
+    elif hname.startswith('VectorType'):
+        fixed = 'fixed' in hname
+        sub = cqltypes.Int32Type if fixed else cqltypes.UTF8Type
+        for dim in (1, 2, 3):
+            t = cqltypes.VectorType.apply_parameters([sub, dim], None)
+            for v in ([[i * 7 - 3 for i in range(dim)], [0] * dim] if fixed else [['a' * (i * 70) for i in range(dim)], [''] * dim, ['\u00e9'] * dim]):
+                b = t.serialize(v, pv)
+                want = b''.join(sub.serialize(x, pv) if fixed else (cser.unsigned_vint(len(sub.serialize(x, pv)), cser.unsigned_vint_extra_bytes(len(sub.serialize(x, pv)))) + sub.serialize(x, pv)) for x in v)
+                if b != want or list(t.deserialize(b, pv)) != v:
+                    fails.append('vector<%s, %d> %r -> %s (expected %s) -> %r' % (sub.typename, dim, v, b.hex(), want.hex(), t.deserialize(b, pv)))
+    elif hname.endswith('.decode'):
+        widths = {'ByteType': 1, 'ShortType': 2, 'Int32Type': 4, 'LongType': 8, 'CounterColumnType': 8}
+        cn = hname[:-7]
+        w = widths[cn]
+        for b in [hexbytes('bytes'), bytes(w), b'\xff' * w, b'\x80' + bytes(w - 1), b'\x7f' + b'\xff' * (w - 1)]:
+            if b is None or len(b) != w:
+                continue
+            v = getattr(cqltypes, cn).deserialize(b, pv)
+            if cser.be_signed(v, w) != b:
+                fails.append('%s.deserialize(%s) = %d' % (cn, b.hex(), v))
+    else:
+        return {'reproduced': False, 'detail': 'no native replay for %s' % hname}
+    return {'reproduced': bool(fails), 'detail': '; '.join(fails[:3]) or '%s agrees with the spec encoders on the battery' % hname}
 
 
 def replay_collection(model, obligation):
